@@ -495,7 +495,12 @@ impl DeviceControl for ControlHandle {
         macro_rules! align {
             ($expr:expr, $ty: ty) => {
                 // Payload alignment is always power of two.
-                ($expr + (payload_alignment as $ty - 1)) & !(payload_alignment as $ty - 1)
+                unwrap_or_log!($expr
+                    .checked_add(payload_alignment as $ty - 1)
+                    .map(|size| size & !(payload_alignment as $ty - 1))
+                    .ok_or_else(|| ControlError::InvalidDevice(
+                        "required size can't be aligned to the payload size alignment".into()
+                    )))
             };
         }
 
